@@ -161,6 +161,9 @@ func execute(e *rt.Entry, sc *prog.Scenario, id uint64, quiet bool, setCur bool)
 		if quiet || n == 0 {
 			x.OpenGate()
 		}
+	case "bigenq":
+		rt.SetOnBigEnqueue(x.OpenGate)
+		defer rt.SetOnBigEnqueue(nil)
 	case "report":
 		if quiet {
 			x.OpenGate() // race builds have no recording emitter to open it
@@ -358,6 +361,9 @@ func applicable(p *prog.Program, tag string) bool {
 		return p.HasFeature("emitters")
 	case "wide", "widegx":
 		return p.HasFeature("wide")
+	case "bigend":
+		// heavy (65537+ element calls): every sixth program with an End hook
+		return p.HasFeature("end-hook") && hashStr(p.Name)%6 == 0
 	}
 	return true
 }
@@ -455,6 +461,9 @@ outer:
 				// "conc": G simultaneous executions of the same directive from G
 				// goroutines (generated code is re-entrant), each with its own
 				// tokens and scenario, each judged on its own.
+				if tag == "bigend" && k > 0 {
+					break // once per program
+				}
 				group := 1
 				scTag := tag
 				if tag == "conc" {
